@@ -158,6 +158,19 @@ class C13(Prop):
             x = ctx.call(O.extract_pda, r.value)
             if ctx.returns(x, "C13.to_final_state.to_empty_stack.extract"):
                 self._cmp(ctx, "C13.to_final_state.to_empty_stack.lang", x.value.lang_empty_stack(n), ref["E"])
+        # a PDA given to the constructor as a ready-made transition function
+        p3 = ctx.call(O.build_pda, c, scheme, "tf_only")
+        if not ctx.returns(p3, "C13.build", via="transition_function"):
+            return
+        p3 = p3.value
+        for name, call, lang, want in (("to_cfg", p3.to_cfg, lambda v: O.extract_cfg(v).lang_upto(n), ref["E"]),
+                                       ("to_final_state", p3.to_final_state, lambda v: O.extract_pda(v).lang_final_state(n), ref["E"]),
+                                       ("to_empty_stack", p3.to_empty_stack, lambda v: O.extract_pda(v).lang_empty_stack(n), ref["F"])):
+            r = ctx.call(call)
+            if ctx.returns(r, "C13." + name, via="transition_function"):
+                x = ctx.call(lang, r.value)
+                if ctx.returns(x, "C13.%s.extract" % name, via="transition_function"):
+                    self._cmp(ctx, "C13.%s.lang" % name, x.value, want, via="transition_function")
 
 
 PROP = C13()
